@@ -96,6 +96,9 @@ OBLIGATIONS.append({"name": "c15.u.base642bin.strict", "props": ["C15", "C12"], 
 import os as _os, sys as _sys
 _sys.path.insert(0, _os.path.join(_os.path.dirname(_os.path.abspath(__file__)), ".."))
 from vlib import b64spec as _b64spec
+_hp = _os.path.join(_os.path.dirname(_os.path.abspath(__file__)), "..", "contracts", "codecs_enc.h")
+if not _os.path.exists(_hp) or open(_hp).read() != _b64spec.header():       # keep the function contract and the loop invariants in step
+    open(_hp, "w").write(_b64spec.header())
 OBLIGATIONS.append({"name": "c15.u.bin2base64", "props": ["C15", "C12"], "kind": "U", "tier": "quick", "src": "harness/codecs_du.c", "include": ["contracts/codecs_u.h", "contracts/codecs_enc.h"], "entry": "hu_bin2base64",
      "mode": "dfcc", "probe": False, "min_props": 30, "solver": "kissat", "timeout": 1500, "cbmc": ["--unwind", "24", "--object-bits", "12"],
      "dfcc": {"enforce": ["sodium_bin2base64/sodium_bin2base64_spec"], "replace": [], "loopspec": _b64spec.loopspec()},
